@@ -493,6 +493,26 @@ def gen_hal(rng, quick):
                 n, cols, sa, sb, sr = shape()
                 add(op, f"cols={cols} col={rng.below(cols)} sa={sa} sb={sb} sr={sr} rows={rng.range(1, 4)} cout=1 co=0 b=30 va=norm vb=norm ma=48 mb=40",
                     "dft_wide", "ntt", n, (n,))
+    # ---- large rings, worst-case value classes (all digits at the extremes, aligned signs), a-priori bound
+    # n * terms * 2^(ma-1) * 2^(mb-1) = 2^49 (demanded: all four equal) and 2^50 (recorded: first bit where FFT64 rounds wrongly)
+    import math
+    for n in ([4096] if quick else [4096, 16384, 65536]):
+        lg = int(math.log2(n))
+        for cls in ("max", "min", "ext"):
+            for (op, terms, extra) in [("svp_apply_dft", 1, "cols=1 sa=2 sb=1 sr=2"), ("svp_apply_dft_to_dft", 1, "cols=1 sa=2 sb=1 sr=2"),
+                                       ("vmp_apply_dft", 4, "cols=1 sa=2 sb=2 sr=2 rows=2 cout=2"),
+                                       ("vmp_apply_dft_to_dft", 4, "cols=2 sa=1 sb=2 sr=2 rows=2 cout=1 lo=0"),
+                                       ("cnv_apply_dft", 2, "cols=1 sa=2 sb=2 sr=4 co=0"), ("cnv_by_const_apply", 2, "cols=1 sa=2 sb=2 sr=4 co=0")]:
+                for (tgt, dom) in ((49, "all"), (50, "edge")):
+                    tot = tgt - lg - int(math.log2(terms)) + 2          # ma + mb
+                    ma = tot // 2
+                    mb = tot - ma
+                    b = min(ma, 30)
+                    add(op, f"{extra} b={b} va={cls} vb={cls} ma={ma} mb={mb}", "big_ring_worst", dom, n, (n, cls, tgt))
+            # the transforms themselves
+            add("dft_fft_raw", f"cols=1 sa=2 b=20 va={cls} ma=40", "transform_raw", "fftraw", n, (n, cls))
+            add("dft_ifft_raw", f"cols=1 sa=2 b=20 va={cls} ma=40", "transform_raw", "fam", n, (n, cls))
+            add("dft_idft_consume", f"cols=1 col=0 sa=2 sr=2 b=20 step=1 doff=0 va={cls} ma=20", "transform_raw", "all", n, (n, cls))
     return cases
 
 
@@ -787,6 +807,8 @@ def run(ctx):
         outside = {"equal": 0, "different": 0}
         npanic = 0
         keyed = {}
+        edge = {}
+        fftraw = {"equal": 0, "different": 0}
         for c, mode in [(c, "hal") for c in hal] + [(c, "scheme") for c in sch] + [(c, "sample") for c in smp]:
             pairs = [("nref", "navx")]
             if c["n"] != 1:
@@ -820,6 +842,13 @@ def run(ctx):
             if c["dom"] == "ntt" and c["n"] != 1:
                 same = res.get((id(c), "fref")) == res.get((id(c), "favx"))
                 outside["equal" if same else "different"] += 1
+            if c["dom"] == "edge":
+                for be in ("fref", "favx"):
+                    edge[be + ("=exact" if res.get((id(c), be)) == res.get((id(c), "nref")) else "!=exact")] = \
+                        edge.get(be + ("=exact" if res.get((id(c), be)) == res.get((id(c), "nref")) else "!=exact"), 0) + 1
+            if c["dom"] == "fftraw":
+                same = res.get((id(c), "fref")) == res.get((id(c), "favx"))
+                fftraw["equal" if same else "different"] += 1
         for fk, hits in keyed.items():
             ctx.log(f"defect class {fk}: {len(hits)} differing cases")
             ctx.violation(("Ref != AVX: " if fk == K_REIM else "FFT64 != NTT120: ") + fk,
@@ -827,6 +856,8 @@ def run(ctx):
                            "rerun": "printf '0 " + hits[0]["request"] + " be=<back end> dump=1\\n' | harness/target/release/pvh avx"}, True, key=fk)
         ctx.cov["keyed_defect_hits"] = {k: len(v) for k, v in keyed.items()}
         ctx.cov["fft64_pair_outside_conversion_bound"] = outside
+        ctx.cov["fft64_at_a_priori_bound_2^50_worst_case"] = edge
+        ctx.cov["fft64_forward_transform_raw_f64_bits_ref_vs_avx"] = fftraw
         ctx.cov["hal_requests"] = len(jobs)
         ctx.cov["hal_panics"] = npanic
         if hal:
